@@ -220,6 +220,13 @@ func (sr *srcRenderer) simple(s any) string {
 		return fmt.Sprintf("r.E(%d, w[0], w[1], w[2], w[3], w[4])", num(m["id"]))
 	case "mut":
 		return sr.mutStmt(m)
+	case "iife":
+		return fmt.Sprintf("func() {\n\tr.E(%d, a, b)\n\ta++\n}()", num(m["id"]))
+	case "nestgen":
+		if sr.md == coMode {
+			return fmt.Sprintf("%sYieldFrom(func() %sIter[int] {\n\tr.E(%d, a, b)\n\t%sYield(a)\n\ta++\n\t%sYield(a)\n\treturn nil\n}())", sr.api, sr.api, num(m["id"]), sr.api, sr.api)
+		}
+		return fmt.Sprintf("rt.YF(yield, rt.Pull(func(yield func(int) bool) {\n\tr.E(%d, a, b)\n\trt.Y(yield, a)\n\ta++\n\trt.Y(yield, a)\n}))", num(m["id"]))
 	case "pullit":
 		return fmt.Sprintf("if it.MoveNext() {\n\tr.E(%d, it.Current(), 0)\n} else {\n\tr.E(%d, -1, 0)\n}", num(m["id"]), num(m["id"]))
 	case "yfromit":
@@ -275,7 +282,7 @@ func (sr *srcRenderer) stmt(s any, ind string) string {
 		return ind + sr.simple(s) + "\n" + ind + "_ = " + n + "\n"
 	case "def2":
 		return ind + sr.simple(s) + "\n" + ind + "_, _ = a, b\n"
-	case "eff", "inc", "callf", "passign", "panic", "yield", "yfrom", "setcv", "sets", "setp", "effkv", "effkk", "effw", "mut", "effx", "pullit", "yfromit":
+	case "eff", "inc", "callf", "passign", "panic", "yield", "yfrom", "setcv", "sets", "setp", "effkv", "effkk", "effw", "mut", "effx", "pullit", "yfromit", "iife", "nestgen":
 		return indent(sr.simple(s), ind)
 	case "range":
 		return sr.rangeStmt(m, ind)
